@@ -134,4 +134,6 @@ VARIANTS = [
          old="    cp = ContractionProcessor(inputs, output, size_dict)\n    if simplify:\n        cp.simplify()\n\n    cp.optimize_optimal(", new="    inputs = tuple(map(tuple, inputs))\n    output = tuple(output)\n    cp = ContractionProcessor(inputs, output, size_dict)\n    if simplify:\n        cp.simplify()\n\n    cp.optimize_optimal("),
     dict(name="the DP keeps the first tree it finds for a subgraph", kind="break", file=BASIC,
          old="                        if (current is None) or (new_score < current[1]):\n", new="                        if current is None:\n", expect=("C09-OPTIMALEVAL", "optimize_optimal_connected")),
+    dict(name="twin: the DP looks the incumbent up with a membership test", kind="twin", file=BASIC,
+         old="                        current = contractions_m.get(new_subgraph, None)\n                        if (current is None) or (new_score < current[1]):\n", new="                        current = contractions_m[new_subgraph] if new_subgraph in contractions_m else None\n                        if (current is None) or (new_score < current[1]):\n"),
 ]
